@@ -26,7 +26,7 @@ import (
 	"github.com/openfga/openfga/pkg/storage/storagewrappers/sharediterator"
 )
 
-const waitLimit = 10 * time.Second
+const waitLimit = 5 * time.Second
 
 // ---------------------------------------------------------------------------------------------
 // canonical forms
@@ -481,7 +481,9 @@ func genItems(r *rec.Rand, q *query, malformed bool) []*openfgav1.Tuple {
 	if malformed && len(out) > 0 {
 		i := r.Intn(len(out))
 		k := out[i].GetKey()
-		switch r.Intn(6) {
+		switch r.Intn(7) {
+		case 6:
+			k.User = "robot:r" + fmt.Sprint(i) // a user type the filter did not ask for
 		case 0:
 			k.Object = "other:" + fmt.Sprint(i)
 		case 1:
@@ -613,7 +615,7 @@ type directEnv struct {
 	max      int
 	cache    *recCache
 	reader   *fakeReader
-	ds       storage.RelationshipTupleReader
+	dss      [3]storage.RelationshipTupleReader // [1] v1 CachedDatastore, [2] v2 CachedTupleReader
 	cancel   context.CancelFunc
 	queries  []*query
 	keyIDs   map[string]int
@@ -693,12 +695,17 @@ func ctxFor(mode int) (context.Context, context.CancelFunc) {
 func (e *directEnv) opOpen(qi int, higher bool, script []int, lossy bool, openErr int) {
 	e.tickClock()
 	q := e.queries[qi]
+	v := e.variant
+	if v == 3 {
+		v = 1 + e.r.Intn(2)
+	}
+	ds := e.dss[v]
 	e.reader.mu.Lock()
 	e.reader.next = &plan{items: q.items, script: script, lossy: lossy, openErr: openErr}
 	e.reader.called = false
 	e.reader.last = nil
 	e.reader.mu.Unlock()
-	it, err := q.open(context.Background(), e.ds, higher)
+	it, err := q.open(context.Background(), ds, higher)
 	e.reader.mu.Lock()
 	called, last := e.reader.called, e.reader.last
 	e.reader.mu.Unlock()
@@ -721,7 +728,7 @@ func (e *directEnv) opOpen(qi int, higher bool, script []int, lossy bool, openEr
 		}
 	}
 	e.iters = append(e.iters, li)
-	e.ops = append(e.ops, rec.L(rec.I(0), rec.I(qi), rec.Bool(higher), rec.LI(script), rec.Bool(lossy), rec.I(openErr), rec.I(status), e.mask()))
+	e.ops = append(e.ops, rec.L(rec.I(0), rec.I(qi), rec.Bool(higher), rec.LI(script), rec.Bool(lossy), rec.I(openErr), rec.I(status), rec.I(v), e.mask()))
 }
 
 func (e *directEnv) opRead(id int, head bool, mode int) {
@@ -876,7 +883,9 @@ func waitJoiners(want int) bool {
 	return true
 }
 
-func (e *directEnv) opInval(marker int, when int) {
+// opInval writes an invalidation marker: when 0 = long ago, 1 = now, 2 = in the future,
+// 3 = exactly the timestamp of the entry currently cached under key (now if there is none).
+func (e *directEnv) opInval(marker int, when int, key int) {
 	e.tickClock()
 	var t time.Time
 	switch when {
@@ -884,11 +893,19 @@ func (e *directEnv) opInval(marker int, when int) {
 		t = e.lastNow.Add(-time.Hour)
 	case 1:
 		t = e.lastNow
-	default:
+	case 2:
 		t = e.lastNow.Add(time.Hour)
+	default:
+		t = e.lastNow
+		switch v := e.cache.Get(e.keys[key]).(type) {
+		case *storage.TupleIteratorCacheEntry:
+			t = v.LastModified
+		case *storagewrappers.V2IteratorCacheEntry:
+			t = v.LastModified
+		}
 	}
 	e.cache.Set(e.marks[marker], &storage.InvalidEntityCacheEntry{LastModified: t}, time.Hour)
-	e.ops = append(e.ops, rec.L(rec.I(5), rec.I(marker), rec.I(when), e.mask()))
+	e.ops = append(e.ops, rec.L(rec.I(5), rec.I(marker), rec.I(when), rec.I(key), e.mask()))
 }
 
 func (e *directEnv) opEvict(key int) {
@@ -931,7 +948,7 @@ func runDirect(w *rec.Writer, d caseDesc) {
 	r := rec.NewRand(mix(d.Seed, 1, d.Idx))
 	e := &directEnv{r: r, keyIDs: map[string]int{}, markIDs: map[string]int{}, inflight: map[int]int{}}
 	e.joinBase = countJoiners()
-	e.variant = 1 + r.Intn(2)
+	e.variant = rec.Pick(r, []int{1, 1, 2, 2, 3}) // 3: both engines' readers over one cache and one singleflight group
 	if e.variant == 1 {
 		e.max = rec.Pick(r, []int{0, 1, 2, 3, 3, 4, 5, 6, 8, 100, 100})
 	} else {
@@ -944,11 +961,8 @@ func runDirect(w *rec.Writer, d caseDesc) {
 	defer cancel()
 	sf := &singleflight.Group{}
 	wg := &sync.WaitGroup{}
-	if e.variant == 1 {
-		e.ds = storagewrappers.NewCachedDatastore(srvCtx, e.reader, e.cache, e.max, time.Hour, sf, wg)
-	} else {
-		e.ds = storagewrappers.NewCachedTupleReader(srvCtx, e.reader, e.cache, e.max, time.Hour, sf, wg, time.Minute)
-	}
+	e.dss[1] = storagewrappers.NewCachedDatastore(srvCtx, e.reader, e.cache, e.max, time.Hour, sf, wg)
+	e.dss[2] = storagewrappers.NewCachedTupleReader(srvCtx, e.reader, e.cache, e.max, time.Hour, sf, wg, time.Minute)
 
 	// queries: one to three, the later ones often one-field mutations of the first
 	malformed := r.Chance(1, 10)
@@ -1025,7 +1039,7 @@ func runDirect(w *rec.Writer, d caseDesc) {
 				e.opBg(rec.Pick(r, g))
 			}
 		case x < 94:
-			e.opInval(r.Intn(len(e.marks)), r.Intn(3))
+			e.opInval(r.Intn(len(e.marks)), rec.Pick(r, []int{0, 1, 1, 2, 3, 3}), r.Intn(len(e.keys)))
 		case x < 98:
 			e.opEvict(r.Intn(len(e.keys)))
 		default:
@@ -1070,6 +1084,7 @@ func runDirect(w *rec.Writer, d caseDesc) {
 	hung := 0
 	if e.aborted {
 		hung = 1
+		hangs++
 		w.Stat("A.aborted", 1)
 	}
 	e.abort() // nothing may stay blocked
